@@ -132,13 +132,13 @@ theorem H8_succ (k : Nat) : H8 k + 1 = H8 (k + 1) := by
 set_option linter.unusedVariables false in
 theorem addLoop_step_nonempty {m : MapPollard H} {T n k : Nat} {A : Pos → Option (Leaf H)} {C : H → Option Pos}
     (rep : Rep m T A C) (hn : m.numLeaves = BitVec.ofNat 64 n) (hn63 : n + 1 < 2 ^ 63)
-    (hfit : forestRows (n + 1) ≤ T) (hfull : m.full = false) (hbit : n.testBit k = true)
+    (hfit : forestRows (n + 1) ≤ T) {fl : Bool} (hfull : m.full = fl) (hbit : n.testBit k = true)
     {node : Leaf H} (hroot : A (rootPos n k) = some node) (hnz : node.hash ≠ zero)
     (add pNode : Leaf H) (fuel : Nat) :
     ∃ m', MapPollard.addLoop add (H8 T) (fuel + 1) (H8 k) (encP T (k, n >>> k)) pNode m =
         MapPollard.addLoop add (H8 T) fuel (H8 (k + 1)) (encP T (k + 1, n >>> (k + 1)))
-          ⟨ph node.hash pNode.hash, false⟩ m' ∧
-      Rep m' T (pruneA (upd A (k + 1, n >>> (k + 1)) (some ⟨ph node.hash pNode.hash, false⟩)) (rootPos n k)) C ∧
+          ⟨ph node.hash pNode.hash, fl⟩ m' ∧
+      Rep m' T (pruneA (upd A (k + 1, n >>> (k + 1)) (some ⟨ph node.hash pNode.hash, fl⟩)) (rootPos n k)) C ∧
       m'.numLeaves = m.numLeaves ∧ m'.full = m.full := by
   have hT := rep.T_le
   obtain ⟨hk, hnT, hodd, hs, hσ⟩ := geo hfit hbit
@@ -151,7 +151,7 @@ theorem addLoop_step_nonempty {m : MapPollard H} {T n k : Nat} {A : Pos → Opti
     rep.node _ hρ, hroot]
   simp only
   rw [if_neg hnz, hpar, hfull, H8_succ]
-  have rep1 := rep.putNode hP (⟨ph node.hash pNode.hash, false⟩ : Leaf H)
+  have rep1 := rep.putNode hP (⟨ph node.hash pNode.hash, fl⟩ : Leaf H)
   obtain ⟨rep2, f1, f2⟩ := pruneNieces_rep rep1 hP (by show 1 ≤ k + 1; omega)
   exact ⟨_, rfl, rep2, f1.trans hn, f2.trans hfull⟩
 
@@ -179,7 +179,7 @@ theorem cacheUp_rep {m : MapPollard H} {T : Nat} {A : Pos → Option (Leaf H)} {
 set_option linter.unusedVariables false in
 theorem addLoop_step_empty {m : MapPollard H} {T n k : Nat} {A : Pos → Option (Leaf H)} {C : H → Option Pos}
     (rep : Rep m T A C) (hn : m.numLeaves = BitVec.ofNat 64 n) (hn63 : n + 1 < 2 ^ 63)
-    (hfit : forestRows (n + 1) ≤ T) (hfull : m.full = false) (hbit : n.testBit k = true)
+    (hfit : forestRows (n + 1) ≤ T) {fl : Bool} (hfull : m.full = fl) (hbit : n.testBit k = true)
     {node : Leaf H} (hroot : A (rootPos n k) = some node) (hz : node.hash = zero)
     (add pNode : Leaf H) (fuel : Nat)
     (h3 : ∀ q, SUnder (rootPos n k) q → A q = none)
